@@ -10,10 +10,12 @@ Definition has_cbs (b : base) (i : Z) : bool := ic_hasdemote (cfg_of b i) && ic_
 Record CB1 (x : iobs) : Prop := mkCB1 {
   cb_terms : io_terms x = io_ended x + (if io_flag x then 1 else 0);
   cb_prom_le : io_promotes x <= io_terms x;
-  cb_prom_ge : io_ended x <= io_promotes x;
+  (* the promotion of a term that has just ended may still be on its way *)
+  cb_prom_ge : io_ended x - (if io_flag x then 0 else 1) <= io_promotes x;
   cb_dem_le : io_demotes x <= io_ended x;
   cb_dem_ge : io_ended x - 1 <= io_demotes x;
   cb_flag_dem : io_flag x = true -> io_demotes x = io_ended x;
+  cb_dem_prom : io_demotes x <= io_promotes x;
   cb_nonneg : 0 <= io_ended x
 }.
 
@@ -30,7 +32,7 @@ Definition cbview (x : iobs) := (io_flag x, io_terms x, io_ended x, io_promotes 
 
 Lemma CB1_view x y : cbview x = cbview y -> CB1 x -> CB1 y.
 Proof.
-  unfold cbview. intros E [A1 A2 A3 A4 A5 A6 A7]. inversion E as [[E1 E2 E3 E4 E5]].
+  unfold cbview. intros E [A1 A2 A3 A4 A5 A6 A8 A7]. inversion E as [[E1 E2 E3 E4 E5]].
   constructor; rewrite <- ?E1, <- ?E2, <- ?E3, <- ?E4, <- ?E5; assumption.
 Qed.
 
@@ -79,9 +81,9 @@ Lemma has_cbs_same b t e j :
   has_cbs (bapply b (t, e)) j = has_cbs b j.
 Proof. intros H. unfold has_cbs, cfg_of. rewrite (cfgs_same _ _ _ H). reflexivity. Qed.
 
-Lemma CB_step b te : CB b -> guards0 b te = [] -> CB (bapply b te).
+Lemma CB_step b te : CB b -> guards0 b te = [] -> late_claim b te = [] -> CB (bapply b te).
 Proof.
-  intros C G. destruct te as [t e].
+  intros C G GL. destruct te as [t e].
   destruct (cb_neutral e) eqn:En.
   { intros j Hj. unfold has_cbs, cfg_of in Hj. rewrite (neutral_cfg _ _ _ En) in Hj.
     eapply CB1_view; [symmetry; apply (neutral_view _ t _ j En)|]. apply C. exact Hj. }
@@ -100,59 +102,63 @@ Proof.
       cbn in G. rewrite Ef in G.
       apply app_nil_l2 in G. destruct G as [_ G]. apply app_nil_l2 in G. destruct G as [G1 G].
       apply app_nil_l2 in G. destruct G as [G2 _]. apply pwhen_nil in G1. apply pwhen_nil in G2.
+      cbn in GL. rewrite Ef in GL. apply app_nil_l2 in GL. destruct GL as [_ G3]. apply pwhen_nil in G3. cbn [andb] in G3.
       destruct (aget (b_rets (b <| b_now := t |>)) gid); rewrite inst_of_upd;
         (destruct (Z.eqb_spec i j) as [E|E]; [subst j|apply (C j Hj')]);
-        destruct (C i Hj') as [A1 A2 A3 A4 A5 A6 A7];
+        destruct (C i Hj') as [A1 A2 A3 A4 A5 A6 A8 A7];
         change (inst_of (b <| b_now := t |>) i) with (inst_of b i);
         unfold has_cbs in Hj'; apply andb_prop in Hj'; destruct Hj' as [Hd Hp];
         rewrite Hd in G2; cbn in G2; apply Bool.negb_false_iff in G2; apply Z.eqb_eq in G2;
-        rewrite G1 in A1; constructor; cbn; intros; lia.
+        rewrite Hp in G3; cbn in G3; apply Bool.negb_false_iff in G3; apply Z.eqb_eq in G3;
+        rewrite G1 in A1, A3; constructor; cbn; intros; lia.
     + (* the claim is cleared *)
-      cbn in G. rewrite Ef in G. apply pwhen_nil in G.
       rewrite inst_of_upd. destruct (Z.eqb_spec i j) as [E|E]; [subst j|apply (C j Hj')].
-      destruct (C i Hj') as [A1 A2 A3 A4 A5 A6 A7].
+      destruct (C i Hj') as [A1 A2 A3 A4 A5 A6 A8 A7].
       change (inst_of (b <| b_now := t |>) i) with (inst_of b i).
-      unfold has_cbs in Hj'. apply andb_prop in Hj'. destruct Hj' as [Hd Hp]. rewrite Hp in G.
-      destruct (io_flag (inst_of b i)) eqn:Efl; cbn in G.
-      * apply Bool.negb_false_iff in G. apply Z.eqb_eq in G. specialize (A6 eq_refl).
-        constructor; cbn; intros; try lia; try discriminate.
+      destruct (io_flag (inst_of b i)) eqn:Efl.
+      * specialize (A6 eq_refl). constructor; cbn; intros; try lia; try discriminate.
       * constructor; cbn; intros; try lia; try discriminate.
   - (* EPromote *)
     intros j Hj. assert (Hj' : has_cbs b j = true) by (rewrite has_cbs_same in Hj; [exact Hj|reflexivity]).
     cbn [bapply]. rewrite inst_of_upd. destruct (Z.eqb_spec i j) as [E|E]; [subst j|apply (C j Hj')].
-    cbn in G. apply app_nil_l2 in G. destruct G as [G1 G2]. apply pwhen_nil in G1. apply pwhen_nil in G2.
-    apply Bool.negb_false_iff in G1, G2. apply Z.ltb_lt in G2.
-    destruct (C i Hj') as [A1 A2 A3 A4 A5 A6 A7].
-    change (inst_of (b <| b_now := t |>) i) with (inst_of b i). rewrite G1 in A1. specialize (A6 G1).
-    constructor; cbn; rewrite ?G1; intros; lia.
+    cbn in G. apply pwhen_nil in G. apply Bool.negb_false_iff in G. apply Z.ltb_lt in G.
+    destruct (C i Hj') as [A1 A2 A3 A4 A5 A6 A8 A7].
+    change (inst_of (b <| b_now := t |>) i) with (inst_of b i).
+    constructor; cbn; intros; try lia; try (apply A6; assumption);
+      destruct (io_flag (inst_of b i)); lia.
   - (* EDemote *)
     intros j Hj. assert (Hj' : has_cbs b j = true) by (rewrite has_cbs_same in Hj; [exact Hj|reflexivity]).
     cbn [bapply]. rewrite inst_of_upd. destruct (Z.eqb_spec i j) as [E|E]; [subst j|apply (C j Hj')].
     cbn in G. apply pwhen_nil in G. apply Bool.negb_false_iff in G. apply Z.ltb_lt in G.
-    destruct (C i Hj') as [A1 A2 A3 A4 A5 A6 A7].
+    cbn in GL. apply pwhen_nil in GL.
+    destruct (C i Hj') as [A1 A2 A3 A4 A5 A6 A8 A7].
     change (inst_of (b <| b_now := t |>) i) with (inst_of b i).
+    unfold has_cbs in Hj'. apply andb_prop in Hj'. destruct Hj' as [Hd Hp]. rewrite Hp in GL. cbn [andb] in GL. apply Z.ltb_ge in GL.
     constructor; cbn; intros; try lia;
       destruct (io_flag (inst_of b i)); try (specialize (A6 eq_refl)); try lia; try discriminate.
 Qed.
 
 (* strict alternation, starting with a promotion *)
-Lemma C08_alternation_local b te : CB b -> guards0 b te = [] -> forall m, ~ In 801 (mon_C08 b m te) /\ ~ In 802 (mon_C08 b m te).
+Lemma C08_alternation_local b te : CB b -> guards0 b te = [] -> late_claim b te = [] ->
+  forall m, ~ In 801 (mon_C08 b m te) /\ ~ In 802 (mon_C08 b m te).
 Proof.
-  intros C G m. destruct te as [t e].
+  intros C G GL m. destruct te as [t e].
   destruct e; cbn [mon_C08 snd]; try (split; intros []).
   - (* EPromote *)
     split; [|intros H; apply in_app_or in H; destruct H as [H|H]; apply mwhen_in in H; destruct H; discriminate].
     intros H. apply in_app_or in H. destruct H as [H|H]; [|apply mwhen_in in H; destruct H; discriminate].
     apply mwhen_in in H. destruct H as [H _]. apply andb_prop in H. destruct H as [Hc H].
-    cbn in G. apply app_nil_l2 in G. destruct G as [G1 G2]. apply pwhen_nil in G1. apply pwhen_nil in G2.
-    apply Bool.negb_false_iff in G1, G2. apply Z.ltb_lt in G2.
-    destruct (C i Hc) as [A1 A2 A3 A4 A5 A6 A7]. rewrite G1 in A1. specialize (A6 G1).
-    apply Bool.negb_true_iff in H. apply Z.eqb_neq in H. lia.
+    cbn in G. apply pwhen_nil in G. apply Bool.negb_false_iff in G. apply Z.ltb_lt in G.
+    destruct (C i Hc) as [A1 A2 A3 A4 A5 A6 A8 A7].
+    apply Bool.negb_true_iff in H. apply Z.eqb_neq in H.
+    destruct (io_flag (inst_of b i)); [specialize (A6 eq_refl); lia|lia].
   - (* EDemote *)
     split; [intros H; apply mwhen_in in H; destruct H; discriminate|].
     intros H. apply mwhen_in in H. destruct H as [H _]. apply andb_prop in H. destruct H as [Hc H].
     cbn in G. apply pwhen_nil in G. apply Bool.negb_false_iff in G. apply Z.ltb_lt in G.
-    destruct (C i Hc) as [A1 A2 A3 A4 A5 A6 A7].
+    cbn in GL. apply pwhen_nil in GL.
+    pose proof Hc as Hc'. unfold has_cbs in Hc'. apply andb_prop in Hc'. destruct Hc' as [Hd Hp]. rewrite Hp in GL. cbn [andb] in GL. apply Z.ltb_ge in GL.
+    destruct (C i Hc) as [A1 A2 A3 A4 A5 A6 A8 A7].
     apply Bool.negb_true_iff in H. apply Z.eqb_neq in H.
     destruct (io_flag (inst_of b i)); [specialize (A6 eq_refl); lia|]. lia.
   - (* EQuiet: other clauses *)
@@ -170,5 +176,5 @@ Proof.
   - cbn in A. destruct (guards b x) eqn:G; [|discriminate].
     destruct pre as [|y pre]; cbn in E.
     + inversion E. subst x post. cbn. auto.
-    + inversion E. subst y. cbn [fold_left]. eapply IH; eauto. apply CB_step; [assumption|apply guards_split in G; tauto].
+    + inversion E. subst y. cbn [fold_left]. eapply IH; eauto. apply CB_step; [assumption|apply guards_split in G; tauto|apply guards_late; exact G].
 Qed.
